@@ -27,10 +27,35 @@ pub struct Case {
     pub proto: Option<vcore::pschema::RawPDoc>,
     #[serde(default)]
     pub pkitchen: Option<usize>,
+    /// one module crowded with this many pairs of names that are equal ignoring case
+    #[serde(default)]
+    pub crowded: Option<u32>,
+}
+
+/// Many items in one module, pairwise equal ignoring case (file names on a case-insensitive
+/// file system collide and get numbered), plus a service and an enum with many members.
+fn crowded_text(n: u32) -> String {
+    let mut t = String::from("namespace rs crowd\n");
+    for i in 0..n {
+        t.push_str(&format!("struct Item{i} {{ 1: i32 a, 2: optional string b }}\nstruct item{i} {{ 1: i64 c }}\n"));
+    }
+    t.push_str("enum Kind {\n");
+    for i in 0..n {
+        t.push_str(&format!("  K{i} = {i},\n"));
+    }
+    t.push_str("}\nservice Crowd {\n");
+    for i in 0..n.min(12) {
+        t.push_str(&format!("  Item{i} get{i}(1: item{i} req),\n"));
+    }
+    t.push_str("}\n");
+    t
 }
 
 /// (is protobuf, files, main files) of a case
 fn files_of(c: &Case) -> (bool, Vec<(String, String)>, usize) {
+    if let Some(n) = c.crowded {
+        return (false, vec![("crowd.thrift".to_string(), crowded_text(n))], 1);
+    }
     if let Some(p) = &c.proto {
         return (true, vcore::pschema::resolve_pdoc(p).print_files(), 1);
     }
@@ -178,24 +203,28 @@ pub fn run(ctx: &Ctx) -> i32 {
     let mut cases: Vec<Case> = vec![];
     for k in 0..vcore::kitchen::thrift_docs().len() {
         for m in [Mode::Single, Mode::Split, Mode::Workspace] {
-            cases.push(Case { raw: None, kitchen: Some(k), mode: m, proto: None, pkitchen: None });
+            cases.push(Case { raw: None, kitchen: Some(k), mode: m, proto: None, pkitchen: None, crowded: None });
         }
     }
     let n = ctx.tier.pick(8, 60) as usize;
     let hostile = GenOpts { hostile_names: true, ..GenOpts::default() };
     for (i, raw) in sample(&arb_raw_doc(hostile), ctx.seed, "c17-hostile", n).into_iter().enumerate() {
-        cases.push(Case { raw: Some(raw), kitchen: None, mode: [Mode::Single, Mode::Split, Mode::Workspace][i % 3], proto: None, pkitchen: None });
+        cases.push(Case { raw: Some(raw), kitchen: None, mode: [Mode::Single, Mode::Split, Mode::Workspace][i % 3], proto: None, pkitchen: None, crowded: None });
     }
     for (i, raw) in sample(&arb_raw_doc(GenOpts::default()), ctx.seed, "c17-plain", n).into_iter().enumerate() {
-        cases.push(Case { raw: Some(raw), kitchen: None, mode: [Mode::Split, Mode::Workspace, Mode::Single][i % 3], proto: None, pkitchen: None });
+        cases.push(Case { raw: Some(raw), kitchen: None, mode: [Mode::Split, Mode::Workspace, Mode::Single][i % 3], proto: None, pkitchen: None, crowded: None });
     }
     for k in 0..vcore::kitchen::proto_docs().len() {
         for m in [Mode::Single, Mode::Split] {
-            cases.push(Case { raw: None, kitchen: None, mode: m, proto: None, pkitchen: Some(k) });
+            cases.push(Case { raw: None, kitchen: None, mode: m, proto: None, pkitchen: Some(k), crowded: None });
         }
     }
     for (i, praw) in sample(&vcore::pschema::arb_raw_pdoc(), ctx.seed, "c17-proto", n).into_iter().enumerate() {
-        cases.push(Case { raw: None, kitchen: None, mode: [Mode::Single, Mode::Split][i % 2], proto: Some(praw), pkitchen: None });
+        cases.push(Case { raw: None, kitchen: None, mode: [Mode::Single, Mode::Split][i % 2], proto: Some(praw), pkitchen: None, crowded: None });
+    }
+    let crowds: &[(u32, Mode)] = if ctx.tier == vcore::evidence::Tier::Quick { &[(30, Mode::Split), (40, Mode::Split)] } else { &[(30, Mode::Split), (40, Mode::Single), (40, Mode::Split), (64, Mode::Split), (64, Mode::Workspace)] };
+    for (n, m) in crowds {
+        cases.push(Case { raw: None, kitchen: None, mode: *m, proto: None, pkitchen: None, crowded: Some(*n) });
     }
     let runs: Vec<usize> = if ctx.tier == vcore::evidence::Tier::Quick { vec![1, 16, 2, 8, 3, 4, 16, 1] } else { (0..48).map(|i| [1, 16, 2, 8, 3, 4, 5, 7][i % 8]).collect() };
     let results: std::sync::Mutex<Vec<(usize, Result<usize, Fail>)>> = Default::default();
